@@ -6,8 +6,11 @@ import (
 	"encoding/json"
 	"fmt"
 	"os"
+	"runtime"
 	"sort"
 	"strings"
+	"sync"
+	"time"
 
 	g "github.com/bobertlo/gmars"
 )
@@ -218,4 +221,69 @@ func ParseCore(s string) ([]g.Instruction, error) {
 		out = append(out, i)
 	}
 	return out, nil
+}
+
+// Watchdog turns a case that does not return (or that eats memory without
+// bound) into a recorded violation: the harness announces every case with
+// Begin and a background goroutine emits the report and ends the process when
+// one case has been running for far longer than any case can take.
+type Watchdog struct {
+	mu      sync.Mutex
+	rep     *Report
+	prop    string
+	kind    string
+	witness func() string
+	since   time.Time
+	active  bool
+	Limit   time.Duration
+	MemCap  uint64
+}
+
+func NewWatchdog(rep *Report, limit time.Duration) *Watchdog {
+	w := &Watchdog{rep: rep, Limit: limit, MemCap: 6 << 30}
+	go w.loop()
+	return w
+}
+
+// Begin announces a case. witness is only called if the case times out.
+func (w *Watchdog) Begin(prop, kind string, witness func() string) {
+	w.mu.Lock()
+	w.prop, w.kind, w.witness, w.since, w.active = prop, kind, witness, time.Now(), true
+	w.mu.Unlock()
+}
+
+func (w *Watchdog) End() {
+	w.mu.Lock()
+	w.active = false
+	w.mu.Unlock()
+}
+
+func (w *Watchdog) loop() {
+	var ms runtime.MemStats
+	for {
+		time.Sleep(250 * time.Millisecond)
+		w.mu.Lock()
+		if w.active {
+			over := time.Since(w.since) > w.Limit
+			why := fmt.Sprintf("the call did not return within %v (cases of this kind take microseconds to milliseconds)", w.Limit)
+			if !over {
+				runtime.ReadMemStats(&ms)
+				if ms.HeapAlloc > w.MemCap {
+					over = true
+					why = fmt.Sprintf("the call allocated more than %d MB without returning", w.MemCap>>20)
+				}
+			}
+			if over {
+				wit := w.witness()
+				w.rep.NViol++
+				w.rep.Counters["viol:"+w.prop+":"+w.kind]++
+				w.rep.Violations = append(w.rep.Violations, Violation{w.prop, w.kind, wit, why})
+				w.rep.Exhaustive = false
+				w.rep.Note("enumeration stopped at the first non-returning case of this worker")
+				w.rep.Emit()
+				os.Exit(0)
+			}
+		}
+		w.mu.Unlock()
+	}
 }
